@@ -307,3 +307,38 @@ func (g *G) genMerge304(id string) *History {
 	}
 	return h
 }
+
+// genRootless: a url.URL whose Path has no leading slash although it has a host — what url.URL.JoinPath
+// returns for a base without a path ("http://a" joined with "b/"), or a client that assigns URL.Path. The
+// URL is "http://a/b/" (url.URL.String; the connection goes to host a): it is equivalent to that spelling and
+// to no URI of another host or port whose text happens to continue the host.
+func (g *G) genRootless(id string) *History {
+	h := &History{ID: id, Prop: g.prop, Class: "rootless", Backend: pick(g, "mem", "mem", "fs"), Logger: "discard"}
+	type sp struct{ url, setPath string }
+	groups := [][2]sp{
+		{{"http://ab.test/x", ""}, {"http://a", "b.test/x"}},
+		{{"http://a.test:8080/x", ""}, {"http://a.test", ":8080/x"}},
+		{{"http://a.test.evil.example/x", ""}, {"http://a.test", ".evil.example/x"}},
+		{{"http://a.test/x", ""}, {"http://a.test", "x"}},       // equivalent
+		{{"http://a.test/y", ""}, {"http://a.test", "x/../y"}},  // equivalent
+		{{"http://a.test/x/", ""}, {"http://a.test", "x/"}},     // equivalent
+		{{"https://a.test/x", ""}, {"https://a.test:443", "x"}}, // equivalent
+	}
+	pr := groups[g.r.Intn(len(groups))]
+	order := []sp{pr[0], pr[1]}
+	if g.chance(0.5) {
+		order[0], order[1] = order[1], order[0]
+	}
+	at := int64(0)
+	for i := 0; i < 2+g.r.Intn(3); i++ {
+		s := order[i%2]
+		if i >= 2 {
+			s = order[g.r.Intn(2)]
+		}
+		body := "r" + strconv.Itoa(i)
+		h.Ops = append(h.Ops, Op{Op: "req", AtNs: at, Method: "GET", URL: s.url, SetPath: s.setPath,
+			Replies: []Reply{{Status: 200, BodyFail: -1, Body: body, Hdr: Hdr{{"Date", dateAt(at, 0)}, {"Cache-Control", "max-age=600"}}}}})
+		at += pick(g, sec, 5*sec, 20*sec)
+	}
+	return h
+}
